@@ -528,22 +528,22 @@ container on the way), whether it succeeds or is rejected: only the typed descen
 written to validates the value, the ancestors are not re-validated — they stay fixed points of their
 specs nevertheless.  `hp`: the containers along the path satisfy `PathOK` (typed dicts / lists,
 not frozen — F185 —, idempotent field specs). -/
-theorem C03_path_write_preserve (env : Env) (pb : Val → Bool) (d : TDict) (k : String) (rest : List PKey)
+theorem path_write0_preserve (env : Env) (pb : Val → Bool) (d : TDict) (k : String) (rest : List PKey)
     (ins : Bool) (a : Val)
     (hI : ∀ f ∈ d.fields, Idem env false f.value) (hM : ∀ f ∈ d.fields, MissingOK env false f.value)
     (hp : rest ≠ [] → ∀ c fld, lookup d.kvs k = some c → getField env d.fields k = some fld →
       PathOK env fld.value c rest)
     (hc : ConformsD env false d) (hs : NoStaleMissing env false d) :
-    ConformsD env false (pathWrite env pb d k rest ins a).1 ∧
-      NoStaleMissing env false (pathWrite env pb d k rest ins a).1 ∧
-      (pathWrite env pb d k rest ins a).1.fields = d.fields := by
+    ConformsD env false (pathWrite0 env pb d k rest ins a).1 ∧
+      NoStaleMissing env false (pathWrite0 env pb d k rest ins a).1 ∧
+      (pathWrite0 env pb d k rest ins a).1.fields = d.fields := by
   cases rest with
   | nil =>
-    simp only [pathWrite]
+    simp only [pathWrite0]
     have h1 := C03_dict_prim_preserve_aux env pb d k a hI hc
     exact ⟨h1.1, dictPrim_nostale env pb d k a hM hs, h1.2⟩
   | cons t ts =>
-    simp only [pathWrite]
+    simp only [pathWrite0]
     cases hl : lookup d.kvs k with
     | none => exact ⟨hc, hs, rfl⟩
     | some c =>
@@ -565,15 +565,15 @@ theorem C03_path_write_preserve (env : Env) (pb : Val → Bool) (d : TDict) (k :
           exact ⟨h1, h2, by first | rfl | trivial⟩
 
 /-- A rejected path write stores nothing. -/
-theorem C03_path_write_reject (env : Env) (pb : Val → Bool) (d : TDict) (k : String) (rest : List PKey)
-    (ins : Bool) (a : Val) (e : E) (h : (pathWrite env pb d k rest ins a).2 = some e) :
-    (pathWrite env pb d k rest ins a).1 = d := by
+theorem path_write0_reject (env : Env) (pb : Val → Bool) (d : TDict) (k : String) (rest : List PKey)
+    (ins : Bool) (a : Val) (e : E) (h : (pathWrite0 env pb d k rest ins a).2 = some e) :
+    (pathWrite0 env pb d k rest ins a).1 = d := by
   cases rest with
   | nil =>
-    simp only [pathWrite] at h ⊢
+    simp only [pathWrite0] at h ⊢
     exact C03_dict_prim_reject env false pb d k (.plain a) e h
   | cons t ts =>
-    simp only [pathWrite] at h ⊢
+    simp only [pathWrite0] at h ⊢
     cases hl : lookup d.kvs k with
     | none => rfl
     | some c =>
@@ -585,37 +585,39 @@ theorem C03_path_write_reject (env : Env) (pb : Val → Bool) (d : TDict) (k : S
         | error e' => rfl
         | ok c' => simp [hn] at h
 
-/-- FULL STATEMENT without the path condition. -/
-def C03_path_write_Full : Prop :=
-  ∀ (env : Env) (pb : Val → Bool) (d : TDict) (k : String) (rest : List PKey) (ins : Bool) (a : Val),
-    ConformsD env false d → ConformsD env false (pathWrite env pb d k rest ins a).1
+theorem C03_path_write_preserve (env : Env) (pb : Val → Bool) (d : TDict) (k : String) (rest : List PKey)
+    (ins : Bool) (a : Val)
+    (hI : ∀ f ∈ d.fields, Idem env false f.value) (hM : ∀ f ∈ d.fields, MissingOK env false f.value)
+    (hp : rest ≠ [] → ∀ c fld, lookup d.kvs k = some c → getField env d.fields k = some fld →
+      PathOK env fld.value c rest)
+    (hc : ConformsD env false d) (hs : NoStaleMissing env false d) :
+    ConformsD env false (pathWrite env pb d k rest ins a).1 ∧
+      NoStaleMissing env false (pathWrite env pb d k rest ins a).1 ∧
+      (pathWrite env pb d k rest ins a).1.fields = d.fields := by
+  unfold pathWrite
+  split
+  · exact ⟨hc, hs, rfl⟩
+  · exact path_write0_preserve env pb d k rest ins a hI hM hp hc hs
 
-/-- F185 (replayed on the real code): with `('fl', List(Int()).freeze([1, 2]))`,
-`d.rebind({'fl[0]': 7})` succeeds and the frozen field no longer holds its frozen value. -/
-theorem C03_path_write_counterexample : ¬ C03_path_write_Full := by
-  intro h
-  let fl : Spec := .list (.int none none F0) 0 none ⟨false, .list [.int 1, .int 2], true⟩
-  have hc : ConformsD envT false ⟨[Field.mk (.const "fl") fl], [("fl", .list [.int 1, .int 2])]⟩ := by
-    refine ⟨?_, ?_⟩
-    · intro kv hkv
-      simp only [List.mem_singleton] at hkv
-      subst hkv
-      exact ⟨_, rfl, rfl⟩
-    · intro k hk
-      simp only [constKeys, List.mem_singleton] at hk
-      subst hk; rfl
-  have hres : (pathWrite envT (fun _ => false) ⟨[Field.mk (.const "fl") fl], [("fl", .list [.int 1, .int 2])]⟩
-      "fl" [.idx 0] false (.int 7)).1.kvs = [("fl", .list [.int 7, .int 2])] := by rfl
-  have := (h envT (fun _ => false) _ "fl" [.idx 0] false (.int 7) hc).1 ("fl", .list [.int 7, .int 2]) (by
-    rw [hres]; exact List.mem_singleton.2 rfl)
-  obtain ⟨f, hf, hap⟩ := this
-  simp only [getField, List.find?_cons, Field.key, beq_self_eq_true] at hf
-  injection hf with hf
-  subst hf
-  have e : apply envT (Field.mk (KeySpec.const "fl") fl).value false ("fl", Val.list [.int 7, .int 2]).snd
-      = .error .value := by rfl
-  rw [e] at hap
-  cases hap
+/-- A rejected path write (schema rejection, missing path, or a sealed target) stores nothing. -/
+theorem C03_path_write_reject (env : Env) (pb : Val → Bool) (d : TDict) (k : String) (rest : List PKey)
+    (ins : Bool) (a : Val) (e : E) (h : (pathWrite env pb d k rest ins a).2 = some e) :
+    (pathWrite env pb d k rest ins a).1 = d := by
+  unfold pathWrite at h ⊢
+  split
+  · rfl
+  · rename_i hse
+    simp only [hse] at h
+    exact path_write0_reject env pb d k rest ins a e h
+
+/-- F185 is repaired (fixes/C03-F185.patch): the content of a frozen container field is sealed — the
+write through the child is refused with WritePermissionError and nothing changes. -/
+theorem C03_F185_repaired :
+    pathWrite envT (fun _ => false)
+      ⟨[Field.mk (.const "fl") (.list (.int none none F0) 0 none ⟨false, .list [.int 1, .int 2], true⟩)],
+       [("fl", .list [.int 1, .int 2])]⟩ "fl" [.idx 0] false (.int 7)
+    = (⟨[Field.mk (.const "fl") (.list (.int none none F0) 0 none ⟨false, .list [.int 1, .int 2], true⟩)],
+        [("fl", .list [.int 1, .int 2])]⟩, some .perm) := by rfl
 
 example : PathOK envT (.list (.int (some 0) none F0) 0 (some 3) F0) (.list [.int 1]) [.idx 0] :=
   ⟨rfl, idem_of_frag envT false _ (by rfl), fun h => absurd rfl h⟩
@@ -671,6 +673,10 @@ theorem C03_table_list_growers : ∀ m ∈ Gen.listGrowers, m.2.1 = true ∧ m.2
 
 /-- Every shrinking entry point consults `min_size`. -/
 theorem C03_table_list_shrinkers : ∀ m ∈ Gen.listShrinkers, m.2 = true := by decide
+
+/-- The model refuses writes below a frozen field (`sealedAt`) and answers a key of the wrong kind
+with KeyError: both are facts of the current source. -/
+theorem C03_table_frozen_sealed : Gen.frozenChildSealed = true ∧ Gen.listPrimBadKeyIsKeyError = true := by decide
 
 theorem C03_table_dict :
     Gen.dictPrimFormalizes = true ∧ Gen.dictFormalizeApplies = true ∧
